@@ -58,18 +58,23 @@ theorem streamLoop_filter {I D P : Type} [DecidableEq I] (cfg : StreamCfg) (hg :
       · rfl
     | broken e => simp [streamLoop]
 
-theorem jsonLoop_filter (cfg : JsonCfg) (h1 : cfg.guardRecord = true) (h2 : cfg.guardFallback = true)
-    (m : Matcher R E) (ls : List (JsonLine R E)) :
-    jsonLoop cfg (some m) ls = filterRun m (jsonLoop cfg none ls) := by
+theorem jsonLoop_filter {I : Type} [DecidableEq I] (cfg : JsonCfg) (h1 : cfg.guardRecord = true)
+    (h2 : cfg.guardFallback = true) (nf : E) (m : Matcher R E) (ls : List (JsonLine I R E)) :
+    ∀ reg, jsonLoop cfg nf (some m) reg ls = filterRun m (jsonLoop cfg nf none reg ls) := by
   induction ls with
-  | nil => simp [jsonLoop]
+  | nil => intro reg; simp [jsonLoop]
   | cons l t ih =>
+    intro reg
     cases l with
-    | record r => simp only [jsonLoop, h1]; rw [ih]; exact emit_filter m _ _ _
-    | descriptor => simp only [jsonLoop]; exact ih
+    | record i r =>
+      simp only [jsonLoop, h1]
+      split
+      · rw [ih reg]; exact emit_filter m _ _ _
+      · rfl
+    | descriptor i => simp only [jsonLoop]; exact ih _
     | plain x =>
       cases x with
-      | ok r => simp only [jsonLoop, h2]; rw [ih]; exact emit_filter m _ _ _
+      | ok r => simp only [jsonLoop, h2]; rw [ih reg]; exact emit_filter m _ _ _
       | error e => simp [jsonLoop]
     | bad e => simp [jsonLoop]
 
